@@ -7,6 +7,7 @@ ROOT="$(cd "$(dirname "$0")/.." && pwd)"
 ID="$1"
 case "$ID" in
   C08|C06) TARGET=fz_fen;  RUNS=4000000; MAXLEN=160 ;;
+  C09)     TARGET=fz_state; RUNS=400000; MAXLEN=600 ;;
   C19)     TARGET=fz_text; RUNS=6000000; MAXLEN=24 ;;
   C20)     TARGET=fz_san;  RUNS=2500000; MAXLEN=20 ;;
   C01|C02|C03|C10|C12|C14) TARGET=fz_pos; RUNS=150000; MAXLEN=1200 ;;
